@@ -254,3 +254,22 @@ def run():
                     lambda: mg.MatrixGrader(answers='1', entry_partial_credit=7)):
         op(bad_cfg)
     return n
+
+
+def standing_defaults():
+    """Course-wide defaults registered through the documented plug-in mechanism, each EQUAL to the documented default of
+    its option - so that, on a correct tree, no configuration and no verdict differs from a process without them.  A
+    quarter of the shards keep them registered while their cases run: the merge of registered defaults with a grader's
+    explicit options is then exercised by every constructed grader (a seeded change let explicit options of one grader
+    leak into the registered table and from there into later graders).  Options that a subclass pins to another value
+    (FormulaGrader.samples vs NumericalGrader) are left alone."""
+    import mitxgraders as mg
+    from mitxgraders.baseclasses import ItemGrader, AbstractGrader
+    AbstractGrader.register_defaults({'debug': False})
+    ItemGrader.register_defaults({'wrong_msg': ''})
+    mg.StringGrader.register_defaults({'strip': True})
+    mg.ListGrader.register_defaults({'partial_credit': True})
+    mg.SingleListGrader.register_defaults({'delimiter': ','})
+    mg.FormulaGrader.register_defaults({'failable_evals': 0})
+    mg.MatrixGrader.register_defaults({'max_array_dim': 1})
+    return 7
